@@ -78,12 +78,13 @@ class TlcResult:
 
 def extract_printed(out, tag):
     res = []
-    needle = '<<"%s"' % tag
+    needle = re.compile(r'<<\s*"%s"' % re.escape(tag))
     pos = 0
     while True:
-        i = out.find(needle, pos)
-        if i < 0:
+        m = needle.search(out, pos)
+        if not m:
             break
+        i = m.start()
         depth, j, instr = 0, i, False
         while j < len(out):
             c = out[j]
